@@ -51,6 +51,7 @@ type obligation struct {
 const (
 	obOutcome = "correspondence: outcome (validation, CoerceVariableValues, CoerceArgumentValues, arguments observed by resolver / directive filter) = model"
 	obCost    = "correspondence: arguments observed by the cost function under ValidateCost = model"
+	obUngated = "correspondence: validator.CoerceVariableValues + CoerceArgumentValues on the unvalidated document = model coerceCase"
 	obLit     = "correspondence: schema.CoerceLiteral = model coerceLit"
 	obVar     = "correspondence: schema.CoerceVariableValue = model coerceVar"
 	obSpec    = "correspondence: Go reference coercion = Lean Spec.coerce"
@@ -385,6 +386,12 @@ func (h *harness) judge(p *prepared, rs []string) []failure {
 					tie = fmt.Sprintf("outcome: implementation %s, model %s", implOutcome, o1)
 				}
 				h.ob(obOutcome, "correspondence", tie == "", tie+" | "+query+" "+variables)
+				ungatedTie := ""
+				if canon(o.Ungated) != o3 {
+					ungatedTie = fmt.Sprintf("ungated coercion: implementation %s, model %s", o.Ungated, o3)
+					tie = strings.TrimSpace(tie + " " + ungatedTie)
+				}
+				h.ob(obUngated, "correspondence", ungatedTie == "", ungatedTie+" | "+query+" "+variables)
 				if g.Site == "field" {
 					// ValidateCost runs only on documents the standard rules accept (patch 06)
 					want := "-"
@@ -833,7 +840,7 @@ func main() {
 	}
 	h.exhaustive()
 	run.Note("exhaustive part: 7 scalars + 2 enums × wrapper forms × every boundary value (in 2–5 list shapes) × the deterministic spellings; @skip/@include × 8 values")
-	h.randomComposite(run.Scale(4000, 60000), run.Scale(4, 6))
+	h.randomComposite(run.Scale(4000, 150000), run.Scale(4, 6))
 
 	h.finish()
 }
